@@ -81,8 +81,8 @@ def write_unit(built, variant):
 
 def run_verus(path, rlimit=None, extra=None, timeout=1800, threads=None):
     cmd = ['verus', path, '--output-json', '--time', '--error-format=json', '--triggers-mode', 'silent', '--multiple-errors', '40']
-    if rlimit:
-        cmd += ['--rlimit', str(rlimit)]
+    # generous default: a changed body should fail its obligation, not exhaust the solver budget (Verus default is 10)
+    cmd += ['--rlimit', str(rlimit if rlimit else 100)]
     if threads:
         cmd += ['--num-threads', str(threads)]
     if extra:
